@@ -58,6 +58,7 @@ def main(spec):
                            "lines": [f.node.lineno, f.node.end_lineno], "sha256": hashlib.sha256(src.encode()).hexdigest()[:16]}
         rep["paths"] = npaths; rep["pruned"] = getattr(I, "last_counts", {}).get("pruned", 0)
         rep["lib_used"] = sorted(getattr(I, "lib_log", set())); rep["executed"] = sorted(getattr(I, "executed", set()))
+        rep["contracts_applied"] = sorted(getattr(I, "applied", set()))
         for r in res:
             v = r.verdict
             rep["results"].append({"name": r.name, "path": r.path, "status": v.status, "backend": v.backend, "secs": round(v.secs, 4), "lemmas": v.lemmas,
